@@ -671,3 +671,65 @@ func ruleWidthFromSource(c *eng.Ctx) {
 		})
 	}
 }
+
+// R12.11 [C12]
+func ruleBuildSectionsCloseByLevel(c *eng.Ctx) {
+	const R = "R12.11-SECTIONS-CLOSE-BY-LEVEL"
+	c.Rule(R, "buildSections decides which open sections a heading closes by comparing the heading level recorded for the open sections (elements of the section stack, or a parallel list of levels) with the new heading's level inside a loop: cutting the stack at a depth computed from the new level alone nests siblings under each other when levels are skipped (H1, H3, H3)", 1, 0)
+	fn := c.P.Func("rag.(*Chunker).buildSections")
+	if fn == nil {
+		c.Undec(R, "rag.(*Chunker).buildSections", token.NoPos, "anchor not found")
+		return
+	}
+	found := false
+	for _, f := range eng.Cluster(fn, 1) {
+		eng.Instrs(f, false, func(in ssa.Instruction) {
+			b, ok := in.(*ssa.BinOp)
+			if !ok || !eng.InLoop(b.Block()) {
+				return
+			}
+			switch b.Op {
+			case token.GEQ, token.GTR, token.LSS, token.LEQ:
+			default:
+				return
+			}
+			recorded := func(v ssa.Value) bool {
+				for w := range eng.Slice(v, nil) {
+					// an int element of a list of levels
+					if ld, ok := w.(*ssa.UnOp); ok && ld.Op == token.MUL {
+						if ia, ok := ld.X.(*ssa.IndexAddr); ok {
+							if st, ok := ia.X.Type().Underlying().(*types.Slice); ok {
+								if bt, ok := st.Elem().Underlying().(*types.Basic); ok && bt.Info()&types.IsInteger != 0 {
+									return true
+								}
+							}
+						}
+					}
+					// the level field of a section taken from a list of sections
+					if fr, ok := eng.AsField(w); ok && strings.Contains(fr.Field, "Level") && strings.HasSuffix(fr.Struct, "rag.Section") {
+						for u := range eng.Slice(fr.Base, nil) {
+							if ia, ok := u.(*ssa.IndexAddr); ok {
+								if _, ok := ia.X.Type().Underlying().(*types.Slice); ok {
+									return true
+								}
+							}
+						}
+					}
+				}
+				return false
+			}
+			newLevel := func(v ssa.Value) bool {
+				for w := range eng.SliceInter(v, nil, eng.Cluster(fn, 1)) {
+					if fr, ok := eng.AsField(w); ok && fr.Field == "Level" && strings.Contains(fr.Struct, "model.Heading") {
+						return true
+					}
+				}
+				return false
+			}
+			if (recorded(b.X) && newLevel(b.Y)) || (recorded(b.Y) && newLevel(b.X)) {
+				found = true
+			}
+		})
+	}
+	c.Check(found, R, "rag.(*Chunker).buildSections#close-by-level", fn.Pos(), "open sections are closed by comparing their recorded level with the new heading's", "no loop compares the level of the open sections with the new heading's level: the stack is cut by a depth derived from the new level alone, so with skipped levels a sibling is nested under its predecessor")
+}
